@@ -843,7 +843,6 @@ fn op_hook<H: HashChain + 'static>(d: &mut Driver, cmd: &Value) {
         "zeroize" => {
             let ty = cmd["type_name"].as_str().unwrap().to_string();
             let fill = cmd["fill"].as_u64().unwrap() as u8;
-            vh::assert_zeroize_on_drop::<H>();
             let r = guarded(|| vh::zeroize_probe::<H>(&ty, fill));
             ev.insert("type_name".into(), json!(ty));
             ev.insert("fill".into(), json!(fill));
